@@ -16,17 +16,20 @@ import Cvss.Proofs.HeaderErr
 # C18 — failures are reported with the documented error values (assembled)
 
 **Header (v3.0, v3.1, v4.0) — unconditional, for every byte string** (`header30`, `header31`, `header40`; no witness,
-no generator): "a wrong or missing header" means, exactly,
-* v3.0 / v3.1: the string does not begin with `CVSS:3.0/` resp. `CVSS:3.1/` — *including the slash*. So the empty
-  string, another version's header, a lower-case header, the bare `CVSS:3.1` and `CVSS:3.1X/AV:…` (header followed
-  by junk) are all header errors;
-* v4.0: the string does not begin with `CVSS:4.0` — *without* slash. `CVSS:4.0` followed directly by junk is NOT a
-  header error in v4.0: `CVSS:4.0X…` (any byte `X ≠ '/'`) yields ErrInvalidMetricValue whatever follows
-  (`v40_header_then_junk`), the bare `CVSS:4.0` yields ErrTooShortVector (`v40_header_only`), and `CVSS:4.0/…`
-  continues with the element loop (order / value / too-short errors, never the header error).
-The converse holds too (`header30_iff`, `header31_iff`, `header40_iff`): ErrInvalidCVSSHeader is returned for these
-strings only. (`Spec.Defect.header p` generates a subset of these strings: those that do not even begin with the
-bare `CVSS:3.x` / `CVSS:4.0`.)
+no generator). The specification's reading (`Spec/Errors.lean`): the header of a vector string is the part before its
+first `/` (`Spec.headOf`), and it is wrong or missing iff that part is not exactly `CVSS:3.0` / `CVSS:3.1` / `CVSS:4.0`.
+* v3.0 / v3.1: ErrInvalidCVSSHeader ⇔ the string does not begin with `CVSS:3.0/` resp. `CVSS:3.1/` — *including the
+  slash* (`header30_iff`, `header31_iff`). So the empty string, another version's header, a lower-case header and
+  `CVSS:3.1X/AV:…` (header followed by junk) are all header errors (`header30_spec`, `header31_spec`: every string whose
+  `headOf` is not the header), and so is the bare `CVSS:3.1` (right header, nothing behind it: `…_iff_spec`);
+* v4.0: ErrInvalidCVSSHeader ⇔ the string is neither exactly `CVSS:4.0` nor begins with `CVSS:4.0/` (`header40_iff`)
+  ⇔ its `headOf` is not `CVSS:4.0` (`header40_spec`). `CVSS:4.0` followed directly by junk IS a header error:
+  `CVSS:4.0X…`, `CVSS:4.01/…`, `CVSS:4.0AV:N/…` (any byte other than `/` behind the header) yield ErrInvalidCVSSHeader
+  whatever follows (`v40_header_then_junk`); the bare `CVSS:4.0` yields ErrTooShortVector (`v40_header_only`), and
+  `CVSS:4.0/…` continues with the element loop (order / value / too-short errors, never the header error).
+  (Before the repair of finding F4 the v4.0 parser reported header-then-junk as ErrInvalidMetricValue; these
+  theorems fail to compile against that source.)
+`Spec.Defect.header p` generates, for v3 and v4 alike, every string `p ++ rest` whose `headOf` is not the header.
 
 **Single defects.** For every grammatical vector (witness list `w`), every defect of `Spec/Errors.lean` and every
 position, the parser model returns exactly the promised error value (`Spec.Defect.apply`), with the abbreviation
@@ -87,8 +90,12 @@ theorem header30 (s : Bytes) (h : ¬ (Spec.V3.header30 ++ [47]) <+: s) : parse30
 /-- **v3.1**: every string that does not begin with `CVSS:3.1/` -/
 theorem header31 (s : Bytes) (h : ¬ (Spec.V3.header31 ++ [47]) <+: s) : parse31 s = .err eHeader := by
   unfold Model.parse31; rw [Proofs.Parse3.const_header31]; exact C13.V3.not_prefix_err _ _ _ s h
-/-- **v4.0**: every string that does not begin with `CVSS:4.0` -/
-theorem header40 (s : Bytes) (h : ¬ Spec.V4.header <+: s) : parse40 s = .err eHeader := by
+/-- **v4.0**: every string that is neither exactly `CVSS:4.0` nor begins with `CVSS:4.0/` -/
+theorem header40 (s : Bytes) (h : ¬ (s = Spec.V4.header ∨ (Spec.V4.header ++ [47]) <+: s)) :
+    parse40 s = .err eHeader := by
+  rw [Proofs.P4.parse40_eq_parseK Proofs.B40.contract40 rfl rfl]; exact (Proofs.HeaderErr.parseK_header_iff _ s).mpr h
+/-- in particular every string that does not begin with `CVSS:4.0` at all -/
+theorem header40_no_prefix (s : Bytes) (h : ¬ Spec.V4.header <+: s) : parse40 s = .err eHeader := by
   rw [Proofs.P4.parse40_eq_parseK Proofs.B40.contract40 rfl rfl]; exact C13.V4.no_header _ h
 
 /-- and only those: ErrInvalidCVSSHeader ⇔ the prefix is missing -/
@@ -96,12 +103,62 @@ theorem header30_iff (s : Bytes) : parse30 s = .err eHeader ↔ ¬ (Spec.V3.head
   rw [Proofs.Parse3.parse30_eq_K Bits30.contract30 rfl rfl]; exact Proofs.HeaderErr.parse3_header_iff _ _ s
 theorem header31_iff (s : Bytes) : parse31 s = .err eHeader ↔ ¬ (Spec.V3.header31 ++ [47]) <+: s := by
   rw [Proofs.Parse3.parse31_eq_K Bits31.contract31 rfl rfl]; exact Proofs.HeaderErr.parse3_header_iff _ _ s
-theorem header40_iff (s : Bytes) : parse40 s = .err eHeader ↔ ¬ Spec.V4.header <+: s := by
+/-- v4.0, for EVERY byte string: ErrInvalidCVSSHeader ⇔ ¬ (the string is exactly the header, or continues with `/`) -/
+theorem header40_iff (s : Bytes) :
+    parse40 s = .err eHeader ↔ ¬ (s = Spec.V4.header ∨ (Spec.V4.header ++ [47]) <+: s) := by
   rw [Proofs.P4.parse40_eq_parseK Proofs.B40.contract40 rfl rfl]; exact Proofs.HeaderErr.parseK_header_iff _ s
+/-- the same, spelled "starts with the header and (is exactly the header or continues with `/`)" -/
+theorem header40_iff' (s : Bytes) :
+    parse40 s = .err eHeader ↔
+      ¬ (Spec.V4.header <+: s ∧ (s = Spec.V4.header ∨ ∃ r, s = Spec.V4.header ++ 47 :: r)) := by
+  rw [header40_iff]
+  refine not_congr ⟨?_, ?_⟩
+  · rintro (rfl | ⟨r, rfl⟩)
+    · exact ⟨List.prefix_refl _, Or.inl rfl⟩
+    · exact ⟨⟨47 :: r, by simp⟩, Or.inr ⟨r, by simp⟩⟩
+  · rintro ⟨_, rfl | ⟨r, rfl⟩⟩
+    · exact Or.inl rfl
+    · exact Or.inr ⟨r, by simp⟩
 
-/-- v4.0: the header followed directly by a byte other than `/` is ErrInvalidMetricValue, whatever follows -/
+/-! ### the same in the specification's terms: the header is the part before the first `/` (`Spec.headOf`) -/
+
+/-- **v4.0**, every byte string: ErrInvalidCVSSHeader ⇔ the part before the first `/` is not `CVSS:4.0` -/
+theorem header40_spec (s : Bytes) : parse40 s = .err eHeader ↔ Spec.headOf s ≠ Spec.V4.header := by
+  rw [header40_iff]; exact not_congr (Spec.headOf_eq_iff s _ (by decide)).symm
+/-- **v3.x**, every byte string: the part before the first `/` is not `CVSS:3.x` ⇒ ErrInvalidCVSSHeader … -/
+theorem header30_spec (s : Bytes) (h : Spec.headOf s ≠ Spec.V3.header30) : parse30 s = .err eHeader :=
+  header30 s (fun hp => h ((Spec.headOf_eq_iff s _ (by decide)).mpr (Or.inr hp)))
+theorem header31_spec (s : Bytes) (h : Spec.headOf s ≠ Spec.V3.header31) : parse31 s = .err eHeader :=
+  header31 s (fun hp => h ((Spec.headOf_eq_iff s _ (by decide)).mpr (Or.inr hp)))
+/-- … and the only other string with that error is the bare header (right header, nothing behind it) -/
+theorem header30_iff_spec (s : Bytes) :
+    parse30 s = .err eHeader ↔ Spec.headOf s ≠ Spec.V3.header30 ∨ s = Spec.V3.header30 := by
+  rw [header30_iff]
+  have hi := Spec.headOf_eq_iff s Spec.V3.header30 (by decide)
+  constructor
+  · intro hn
+    by_cases hs : s = Spec.V3.header30
+    · exact Or.inr hs
+    · exact Or.inl (fun e => (hi.mp e).elim hs hn)
+  · rintro (h | rfl) hp
+    · exact h (hi.mpr (Or.inr hp))
+    · exact absurd (List.IsPrefix.length_le hp) (by decide)
+theorem header31_iff_spec (s : Bytes) :
+    parse31 s = .err eHeader ↔ Spec.headOf s ≠ Spec.V3.header31 ∨ s = Spec.V3.header31 := by
+  rw [header31_iff]
+  have hi := Spec.headOf_eq_iff s Spec.V3.header31 (by decide)
+  constructor
+  · intro hn
+    by_cases hs : s = Spec.V3.header31
+    · exact Or.inr hs
+    · exact Or.inl (fun e => (hi.mp e).elim hs hn)
+  · rintro (h | rfl) hp
+    · exact h (hi.mpr (Or.inr hp))
+    · exact absurd (List.IsPrefix.length_le hp) (by decide)
+
+/-- v4.0: the header followed directly by a byte other than `/` is ErrInvalidCVSSHeader, whatever follows -/
 theorem v40_header_then_junk (c : Nat) (r : Bytes) (hc : c ≠ 47) :
-    parse40 (Spec.V4.header ++ c :: r) = .err eValue := by
+    parse40 (Spec.V4.header ++ c :: r) = .err eHeader := by
   rw [Proofs.P4.parse40_eq_parseK Proofs.B40.contract40 rfl rfl, Proofs.P4.parseK_header_append]
   exact if_neg hc
 /-- v4.0: the bare header is ErrTooShortVector -/
@@ -109,21 +166,36 @@ theorem v40_header_only : parse40 Spec.V4.header = .err eTooShort := by decide
 
 /-- the headers, as bytes -/
 example : Spec.V3.header30 ++ [47] = Spec.b "CVSS:3.0/" ∧ Spec.V3.header31 ++ [47] = Spec.b "CVSS:3.1/" ∧
-    Spec.V4.header = Spec.b "CVSS:4.0" := by decide
-/-- header followed by junk: a header error in v3 (the generator `Defect.header` promises nothing for it) … -/
+    Spec.V4.header = Spec.b "CVSS:4.0" ∧ Spec.V4.header ++ [47] = Spec.b "CVSS:4.0/" := by decide
+example : Spec.headOf (Spec.b "CVSS:4.01/AV:N") = Spec.b "CVSS:4.01" ∧ Spec.headOf (Spec.b "CVSS:4.0") = Spec.b "CVSS:4.0" ∧
+    Spec.headOf (Spec.b "/AV:N") = [] ∧ Spec.headOf (Spec.b "CVSS:4.0/AV:N/AC:L") = Spec.b "CVSS:4.0" := by decide
+/-- header followed by junk: a header error in v3, and the generator `Defect.header` produces it … -/
 example : parse31 (Spec.b "CVSS:3.1X/AV:N/AC:L/PR:N/UI:N/S:U/C:H/I:H/A:H") = .err eHeader :=
   header31 _ (by rw [← List.isPrefixOf_iff_prefix]; decide)
-example : (Spec.Defect.header (Spec.b "CVSS:3.1X")).apply .v31 C18.V3.w₀ = none := by decide
+example : (Spec.Defect.header (Spec.b "CVSS:3.1X")).apply .v31 C18.V3.w₀ =
+    some (Spec.b "CVSS:3.1X/AV:N/AC:L/PR:N/UI:N/S:U/C:H/I:H/A:H/E:F", (1, [])) := by decide
 /-- … the bare header and the missing header too … -/
 example : parse31 (Spec.b "CVSS:3.1") = .err eHeader := header31 _ (by rw [← List.isPrefixOf_iff_prefix]; decide)
 example : parse30 [] = .err eHeader := header30 _ (by rw [← List.isPrefixOf_iff_prefix]; decide)
 example : parse30 (Spec.b "CVSS:3.1/AV:N/AC:L/PR:N/UI:N/S:U/C:H/I:H/A:H") = .err eHeader :=
   header30 _ (by rw [← List.isPrefixOf_iff_prefix]; decide)
-/-- … but a value error in v4.0 -/
-example : parse40 (Spec.b "CVSS:4.0X/AV:N/AC:L/AT:N/PR:N/UI:N/VC:H/VI:H/VA:H/SC:N/SI:N/SA:N") = .err eValue :=
+/-- … and in v4.0 as well (finding F4, repaired): junk byte, a longer version number, a missing separator -/
+example : parse40 (Spec.b "CVSS:4.0X/AV:N/AC:L/AT:N/PR:N/UI:N/VC:H/VI:H/VA:H/SC:N/SI:N/SA:N") = .err eHeader :=
   v40_header_then_junk 88 _ (by decide)
+example : parse40 (Spec.b "CVSS:4.01/AV:N/AC:L/AT:N/PR:N/UI:N/VC:H/VI:H/VA:H/SC:N/SI:N/SA:N") = .err eHeader :=
+  v40_header_then_junk 49 _ (by decide)
+example : parse40 (Spec.b "CVSS:4.0AV:N/AC:L/AT:N/PR:N/UI:N/VC:H/VI:H/VA:H/SC:N/SI:N/SA:N") = .err eHeader :=
+  v40_header_then_junk 65 _ (by decide)
+example : (Spec.Defect.header (Spec.b "CVSS:4.0X")).apply .v40 C18.V4.w0 =
+    some (Spec.b "CVSS:4.0X/AV:N/AC:L/AT:N/PR:N/UI:N/VC:H/VI:H/VA:H/SC:N/SI:N/SA:N/E:A/CR:H/U:Red", (1, [])) := by decide
+/-- the right header put back is no defect; the right header plus a complete element is not a *header* defect -/
+example : (Spec.Defect.header (Spec.b "CVSS:4.0")).apply .v40 C18.V4.w0 = none ∧
+    (Spec.Defect.header (Spec.b "CVSS:4.0/XX:Y")).apply .v40 C18.V4.w0 = none ∧
+    (Spec.Defect.header (Spec.b "CVSS:3.1")).apply .v31 C18.V3.w₀ = none := by decide
 example : parse40 (Spec.b "CVSS:4.1/AV:N/AC:L/AT:N/PR:N/UI:N/VC:H/VI:H/VA:H/SC:N/SI:N/SA:N") = .err eHeader :=
-  header40 _ (by rw [← List.isPrefixOf_iff_prefix]; decide)
+  header40_no_prefix _ (by rw [← List.isPrefixOf_iff_prefix]; decide)
+example : parse40 (Spec.b "CVSS:4.0/AV:N/AC:L/AT:N/PR:N/UI:N/VC:H/VI:H/VA:H/SC:N/SI:N/SA:N") ≠ .err eHeader :=
+  fun h => (header40_iff _).mp h (Or.inr (by rw [← List.isPrefixOf_iff_prefix]; decide))
 
 /-- Get/Set on an unknown abbreviation return `*ErrInvalidMetric{abv}`; Set with an illegal value
     `ErrInvalidMetricValue`; the object is unchanged (all versions, every byte state). -/
